@@ -45,7 +45,8 @@ def configs(tier, seed):
     # sparse regimes (triple space far larger than the budget, production sizes included) with an adversarial generator:
     # it returns the worst sequence its contract allows (all-equal indices whenever it is asked to draw with replacement)
     # (40, 20000): a budget above the default that covers all C(40,3) = 9880 triples: every one of them must be used
-    for nt, mc in ((12, 2), (30, 7), (150, 5000), (40, 20000)) + (((300, 5000), (600, 5000), (60, 40000), (45, 9000)) if tier != "quick" else ()):
+    # (2000, 600): C(2000,3) = 1.3e9 - intermediate products of an unranking done in 32-bit integers overflow from n = 1627 on
+    for nt, mc in ((12, 2), (30, 7), (150, 5000), (40, 20000), (2000, 600)) + (((300, 5000), (600, 5000), (60, 40000), (45, 9000)) if tier != "quick" else ()):
         out.append(dict(name="triples nt=%d max=%d adversarial generator" % (nt, mc), h="triples", nt=nt, max_combos=mc, adversarial=True))
     return out
 
@@ -81,6 +82,12 @@ def h_unrank(ctx, cfg):
     return list(t)
 
 
+def _arr(x):
+    """numpy's Generator.choice returns an array: so does the stand-in (real numpy is fine in every mode: plain integers)"""
+    import numpy
+    return numpy.array(x, dtype=numpy.int64)
+
+
 class _Adversarial:
     """a generator that honours numpy's contract in the least helpful way: without replacement it returns distinct
     (spread-out) elements, with replacement it returns the same element every time"""
@@ -89,11 +96,50 @@ class _Adversarial:
         n = int(a)
         k = int(size)
         if replace:
-            return [n // 2] * k
+            return _arr([n // 2] * k)
         if k > n:
             raise ValueError("Cannot take a larger sample than population when replace is False")
         step = max(1, n // k)
-        return [(i * step) % n for i in range(k)] if step * (k - 1) < n else list(range(k))
+        return _arr([(i * step) % n for i in range(k)] if step * (k - 1) < n else list(range(k)))
+
+
+class _RecordingMatrix:
+    """a dense distance matrix that notes which (row, column) entries are looked up with index arrays: the triples the
+    scoring function really uses are observed where they are consumed, not inside a helper it may or may not call"""
+
+    def __init__(self, a):
+        self.a = a
+        self.lookups = []
+
+    @property
+    def shape(self):
+        return self.a.shape
+
+    def __getitem__(self, key):
+        if isinstance(key, tuple) and len(key) == 2 and all(hasattr(k, "tolist") and getattr(k, "ndim", 0) == 1 for k in key):
+            self.lookups.append(([int(x) for x in key[0].tolist()], [int(x) for x in key[1].tolist()]))
+        return self.a[key]
+
+    def __getattr__(self, name):
+        return getattr(self.a, name)
+
+    def triples(self, ctx):
+        """the triples consumed: one per position of the index arrays; None if the lookups do not have the expected form
+        (then nothing can be said: inconclusive, never a finding)"""
+        if not self.lookups or len(self.lookups) % 3:
+            ctx.inconclusive("the distance matrix was not read with (groups of) three pairs of index arrays: the triples used cannot be observed")
+        out = []
+        for g in range(0, len(self.lookups), 3):  # one group per pass over the triples
+            group = self.lookups[g:g + 3]
+            if len({len(a) for a, b in group} | {len(b) for a, b in group}) != 1:
+                ctx.inconclusive("index arrays of unequal length: the triples used cannot be observed")
+            for c in range(len(group[0][0])):
+                ids = set()
+                for a, b in group:
+                    ids.add(a[c])
+                    ids.add(b[c])
+                out.append(tuple(sorted(ids, reverse=True)))
+        return out
 
 
 def h_triples(ctx, cfg):
@@ -101,21 +147,11 @@ def h_triples(ctx, cfg):
     np = ctx.np
     gd = ctx.mod("batchie.scoring.gaussian_dbal")
     nt, mc = cfg["nt"], cfg["max_combos"]
-    seen = []
-    real = gd.get_combination_at_sorted_index
-
-    def recorder(ind, n, k):
-        r = real(ind, n, k)
-        seen.append(tuple(int(x) for x in r))
-        return r
-    gd.get_combination_at_sorted_index = recorder
-    try:
-        preds = np.array([[[float(t + 1)] for t in range(nt)]], dtype=float)
-        var = np.array([[[1.0] for t in range(nt)]], dtype=float)
-        D = np.array([[0.0 if i == j else 1.0 for j in range(nt)] for i in range(nt)], dtype=float)
-        gd.dbal_fast_gauss_scoring_vectorized(preds, var, D, _Adversarial() if cfg.get("adversarial") else ctx.rng("R"), max_combos=mc)
-    finally:
-        gd.get_combination_at_sorted_index = real
+    preds = np.array([[[float(t + 1)] for t in range(nt)]], dtype=float)
+    var = np.array([[[1.0] for t in range(nt)]], dtype=float)
+    D = _RecordingMatrix(np.array([[0.0 if i == j else 1.0 for j in range(nt)] for i in range(nt)], dtype=float))
+    gd.dbal_fast_gauss_scoring_vectorized(preds, var, D, _Adversarial() if cfg.get("adversarial") else ctx.rng("R"), max_combos=mc)
+    seen = D.triples(ctx)
     C = math.comb(nt, 3)
     ctx.prove(len(seen) == min(C, mc), "number of triples is min(C(n,3), budget)")
     ctx.prove(len(set(seen)) == len(seen), "triples are pairwise distinct")
@@ -135,7 +171,6 @@ def h_scorer_reuse(ctx, cfg):
     dc = ctx.mod("batchie.distance_calculation")
     budget = cfg["budget"]
     scorer = gd.GaussianDBALScorer(max_chunk=5, max_triples=budget)
-    real = gd.get_combination_at_sorted_index
     out = []
     for nt in cfg["nts"]:
         holder = core.ThetaHolder(n_thetas=nt)
@@ -145,18 +180,17 @@ def h_scorer_reuse(ctx, cfg):
         for i in range(nt):
             for j in range(i):
                 dm.add_value(i, j, 0.3 + 0.1 * i + 0.05 * j)
-        plates = {4: _Plate(np, 3, 0, 1), 9: _Plate(np, 3, 1, 2)}
-        seen = []
+        rec = _RecordingMatrix(dm.to_dense())
 
-        def recorder(ind, n, k, seen=seen):
-            r = real(ind, n, k)
-            seen.append(tuple(int(x) for x in r))
-            return r
-        gd.get_combination_at_sorted_index = recorder
-        try:
-            scorer.score(plates=plates, distance_matrix=dm, samples=holder, rng=_Adversarial(), progress_bar=False)
-        finally:
-            gd.get_combination_at_sorted_index = real
+        class _DM:  # what the scorer needs of a distance matrix: its dense form
+            def to_dense(self):
+                return rec
+
+            def is_complete(self):
+                return True
+        plates = {4: _Plate(np, 3, 0, 1), 9: _Plate(np, 3, 1, 2)}
+        scorer.score(plates=plates, distance_matrix=_DM(), samples=holder, rng=_Adversarial(), progress_bar=False)
+        seen = rec.triples(ctx)
         want = min(math.comb(nt, 3), budget)
         ctx.prove(len(seen) == want, "number of triples is min(C(n,3), budget) in every call of a reused scorer", key="reused scorer: number of triples")
         ctx.prove(len(set(seen)) == len(seen), "triples are pairwise distinct in every call of a reused scorer", key="reused scorer: triples not distinct")
